@@ -164,7 +164,11 @@ def apply_on_boundary(array, func, only_once=True, which_boundaries=None,
         else:
             start = None
 
-        if mod_right and func_r is not None:
+        if (only_once and start is not None and array.shape[ax] == 1):
+            # Left and right boundary coincide in an axis of size 1 and
+            # have already been processed
+            end = None
+        elif mod_right and func_r is not None:
             out[slc_r] = func_r(out[slc_r])
             end = -1
         else:
